@@ -1,4 +1,5 @@
 import ProfiVerif.Driver.Codec
+import ProfiVerif.Driver.PhyRx
 open PV PV.Driver
 
 /-
@@ -12,6 +13,8 @@ def main (args : List String) : IO UInt32 := do
   match args with
   | ["model", "codec"] => engineLoop (fun (_ : Unit) l => ((), (stepCodec (splitWords l)).getD "bad-op")) () inp out; return 0
   | ["model", "decoder"] => engineLoop (fun (_ : Unit) l => ((), (stepDecoder (splitWords l)).getD "bad-op")) () inp out; return 0
+  | ["model", "phyrx"] => engineLoop stepPhyRx [] inp out; return 0
+  | ["oracle", "C16", o, i] => oracleLoop oracleC16 {} o i
   | ["oracle", "C10", o, i] => oracleLoop (fun (_ : Unit) op obs => ((), oracleC10 op obs)) () o i
   | ["oracle", "C09", o, i] => oracleLoop (fun (_ : Unit) op obs => ((), oracleC09 op obs)) () o i
   | _ => IO.eprintln "usage: pvdriver model <engine> | oracle <name> <ops> <impl>"; return 2
